@@ -24,7 +24,16 @@ def main():
         m = m.double().float() if dt == torch.float32 else m.float().double()
     with torch.no_grad():
         outs = fn(xf.pack(x, cfg, dt))
-    np.savez(sys.argv[1], *[o.numpy() for o in outs])
+    # second call of this interpreter: the gradients for a fixed cotangent (see pwv.props.c15.cotangent)
+    from pwv.props.c15 import cotangent
+    ins = [t.requires_grad_(True) for t in xf.pack(x, cfg, dt)]
+    outs2 = fn(ins)
+    diff = [o for o in outs2 if o.requires_grad]
+    grads = []
+    if diff:
+        gs = torch.autograd.grad(diff, ins, [cotangent(o) for o in diff], allow_unused=True)
+        grads = [np.zeros(0, dtype=ndt) if g is None else g.numpy() for g in gs]
+    np.savez(sys.argv[1], *([o.numpy() for o in outs] + grads), n_out=np.array(len(outs)))
 
 
 if __name__ == '__main__':
